@@ -555,6 +555,23 @@ theorem lexString_backslash_eof (q : Char) (hq : isQuote q) (fmt : Bool) (f : Na
 
 /-! ### the bytes loop -/
 
+/-- An ASCII character written as itself in a bytes literal is the one byte with its code. -/
+theorem utf8Bytes_ascii (c : Char) (h : c.toNat < 128) : utf8Bytes c = [UInt8.ofNat c.toNat] := by
+  unfold utf8Bytes String.toUTF8
+  rw [String.toByteArray_singleton, List.utf8Encode_singleton, String.utf8EncodeChar_eq_singleton]
+  · have : ([c.val.toUInt8] : List UInt8).toByteArray = ByteArray.mk #[c.val.toUInt8] := rfl
+    rw [this]
+    have e : (ByteArray.mk #[c.val.toUInt8]).toList = [c.val.toUInt8] := by
+      simp [ByteArray.toList, ByteArray.toList.loop, ByteArray.size]
+      rfl
+    rw [e]
+    congr 1
+  · rw [Char.utf8Size_eq_one_iff, UInt32.le_iff_toNat_le]
+    have : c.val.toNat = c.toNat := rfl
+    rw [this]
+    show c.toNat ≤ 127
+    omega
+
 theorem lexBytes_close (q : Char) (f : Nat) (rest : List Char) (loc : Loc) (acc : List UInt8) :
     lexBytes q (f + 1) ⟨q :: rest, loc⟩ acc = .ok (.bytesLit acc.reverse, ⟨rest, loc.adv q⟩) := by
   simp [lexBytes, Scan.next]
